@@ -300,6 +300,7 @@ func execProxyRaw(e *Env, pp any) {
 		}
 	}
 	sentCount := 0
+	sentN := func() int { histMu.Lock(); defer histMu.Unlock(); return sentCount }
 	failed := map[string]bool{} // names whose (generation 0) connection was failed by the harness
 	badFailedGen := -1
 	_ = badFailedGen
@@ -417,7 +418,7 @@ func execProxyRaw(e *Env, pp any) {
 	steps0 := e.Step
 	for {
 		reason := e.Drive(func() bool {
-			if !faultDone && sentCount >= p.FailAt {
+			if !faultDone && sentN() >= p.FailAt {
 				return true
 			}
 			if p.CancelAt > 0 && !cancelled && e.Step-steps0 >= p.CancelAt {
@@ -431,7 +432,7 @@ func execProxyRaw(e *Env, pp any) {
 		if reason != CondMet {
 			break
 		}
-		if !faultDone && sentCount >= p.FailAt {
+		if !faultDone && sentN() >= p.FailAt {
 			faultDone = true
 			if p.Reattach == 1 {
 				reattach()
